@@ -497,6 +497,9 @@ async def acyclic(only_templates=None):
                     Events, Store = collaborators(obs)
                     chart = PipelineChart(f'bounded_{tag}', build_dag(cls['In'], cls['Out']), artifact_store=Store,
                                           event_managers=[Events])
+                    # a read-only look at the built graph, as a viewer or a debugger takes one (networkx caches its views on
+                    # the graph object)
+                    _ = (len(chart.entrypoint.graph.nodes), len(chart.entrypoint.graph.edges), list(chart.entrypoint.graph.adj))
                     case = f'failing={sorted(failing)} label={label} schedule={si}'
                     hung = False
                     for mode, keys in (('first', [1]), ('second', [2]), ('overlapped', [3, 4])):
@@ -628,6 +631,74 @@ async def retry():
             if any(g < DELAY * 0.8 for g in gaps):
                 fail('C12', 'retry', case, f'gaps between attempts {[round(g, 4) for g in gaps]}', f'at least delay={DELAY} s')
             await settle(obs, 'retry', case)
+
+
+async def retry_overlapped():
+    """two overlapping runs of one chart, the same retrying node failing in both: the policy is applied per run (C12, C08)"""
+    counter = itertools.count(7000000)
+    for use_default in (False, True):
+        for seq in (('T', 'T', 'ok'), ('T', 'ok'), ('T', 'T', 'T')):
+            N_CASES[0] += 1
+            tag = f'o{next(counter)}'
+            obs = Obs()
+            pos = {}
+
+            class In(ProcessorBase):
+                name = f'{tag}_in'
+
+                async def process(self, x: int) -> int:
+                    return x
+
+            class N(ProcessorBase):
+                name = f'{tag}_n'
+                attempts, delay, exceptions = 3, 0.01, (Transient,)
+
+                async def process(self, v: Input(In)) -> int:
+                    k = RUN_KEY.get()
+                    obs.calls.append((k, 'N', dict(v=v)))
+                    i = pos.get(k, 0)
+                    pos[k] = i + 1
+                    o = seq[i] if i < len(seq) else 'ok'
+                    if o == 'T':
+                        raise Transient(i + 1)
+                    return 500 + v
+
+                def get_default(self, **kw):
+                    obs.defaults.append((RUN_KEY.get(), 'N', dict(kw)))
+                    return 900
+
+            N.use_default = use_default
+
+            class Out(ProcessorBase):
+                name = f'{tag}_out'
+
+                async def process(self, n: Input(N)) -> int:
+                    return n + 1
+
+            chart = PipelineChart(f'bounded_{tag}', build_dag(In, Out))
+            results = await asyncio.gather(run_keyed(chart, 1, obs), run_keyed(chart, 2, obs))
+            for key, (kind, res) in zip((1, 2), results):
+                case = f'two overlapped runs, attempts=3 use_default={use_default} outcomes={seq} (run {key})'
+                if kind != 'done':
+                    fail('C02' if kind == 'hung' else 'C05', 'retry-overlapped', case, kind, 'the run completes')
+                    continue
+                n_calls = sum(1 for k, _n, _kw in obs.calls if k == key)
+                want_calls = 3 if 'ok' not in seq else seq.index('ok') + 1
+                exhausted = 'ok' not in seq
+                for prop_ in ('C12', 'C08'):
+                    if n_calls != want_calls:
+                        fail(prop_, 'retry-overlapped', case, f'node body invoked {n_calls} times in this run', f'{want_calls} times')
+                    n_def = sum(1 for k, _n, _kw in obs.defaults if k == key)
+                    if n_def != (1 if exhausted and use_default else 0):
+                        fail(prop_, 'retry-overlapped', case, f'get_default called {n_def} times in this run',
+                             'once' if exhausted and use_default else 'not at all')
+                    if not exhausted and (res.error is not None or res.value != 500 + key + 1):
+                        fail(prop_, 'retry-overlapped', case, f'value={res.value!r} error={res.error!r}', f'value={500 + key + 1}')
+                    if exhausted and use_default and (res.error is not None or res.value != 901):
+                        fail(prop_, 'retry-overlapped', case, f'value={res.value!r} error={res.error!r}', 'value=901')
+                    if exhausted and not use_default and type(res.error).__name__ != 'Transient':
+                        fail(prop_, 'retry-overlapped', case, f'value={res.value!r} error={res.error!r}', 'error=Transient(3)')
+            await settle(obs, 'retry-overlapped', 'two overlapped runs')
 
 
 # ----------------------------------------------------------------------------------------------------------------------
@@ -862,6 +933,78 @@ async def retry_in_recurrent():
         await settle(obs, 'retry-in-recurrent', case)
 
 
+async def recurrent_overlapped():
+    """two overlapping runs of one chart with a recurrent subgraph, one of them re-iterating while the other is still ahead
+    of the subgraph: the additional_data of one run never reaches the other (C08, C11)"""
+    counter = itertools.count(8000000)
+    for k_a, k_b, slow_b in itertools.product((1, 2), (0, 1), (0.01, 0.03)):
+        N_CASES[0] += 1
+        tag = f'v{next(counter)}'
+        obs = Obs()
+        dest_calls = {}
+        want_k = {1: k_a, 2: k_b}
+
+        class In(ProcessorBase):
+            name = f'{tag}_in'
+
+            async def process(self, x: int) -> int:
+                return x
+
+        class Pre(ProcessorBase):
+            name = f'{tag}_pre'
+
+            async def process(self, v: Input(In)) -> int:
+                await asyncio.sleep(slow_b if RUN_KEY.get() == 2 else 0)
+                return v
+
+        class S(ProcessorBase):
+            name = f'{tag}_s'
+
+            async def process(self, v: Input(Pre), additional_data: t.Optional[int] = None) -> int:
+                obs.calls.append((RUN_KEY.get(), 'S', dict(additional_data=additional_data)))
+                await asyncio.sleep(0.004)
+                return 100 + v + (additional_data or 0)
+
+        class R(RecurrentProcessor):
+            name = f'{tag}_r'
+            use_default = True
+
+            async def process(self, m: Input(S)) -> int:
+                k = RUN_KEY.get()
+                dest_calls[k] = dest_calls.get(k, 0) + 1
+                await asyncio.sleep(0.004)
+                if dest_calls[k] <= want_k[k]:
+                    return self.next_iteration(k * 1000 + dest_calls[k])
+                return m
+
+            def get_default(self, **kw):
+                return 777
+
+        class Out(ProcessorBase):
+            name = f'{tag}_out'
+
+            async def process(self, r: RecurrentSubGraph(start_node=S, dest_node=R, max_iterations=3)) -> int:
+                return r
+
+        chart = PipelineChart(f'bounded_{tag}', build_dag(In, Out))
+        _ = len(chart.entrypoint.graph.nodes)
+        results = await asyncio.gather(run_keyed(chart, 1, obs), run_keyed(chart, 2, obs))
+        for key, (kind, res) in zip((1, 2), results):
+            case = f'overlapped runs: run 1 re-iterates {k_a}x, run 2 {k_b}x and is {slow_b} s late into the subgraph (run {key})'
+            if kind != 'done':
+                fail('C02' if kind == 'hung' else 'C05', 'recurrent-overlapped', case, kind, 'the run completes')
+                continue
+            datas = [kw['additional_data'] for k, _n, kw in obs.calls if k == key]
+            want = [None] + [key * 1000 + i for i in range(1, want_k[key] + 1)]
+            value = 100 + key + (want[-1] or 0)
+            for prop_ in ('C08', 'C11'):
+                if datas != want:
+                    fail(prop_, 'recurrent-overlapped', case, f'start node of this run received additional_data={datas}', want)
+                if res.error is not None or res.value != value:
+                    fail(prop_, 'recurrent-overlapped', case, f'value={res.value!r} error={res.error!r}', f'value={value}')
+        await settle(obs, 'recurrent-overlapped', 'two overlapped runs')
+
+
 # ----------------------------------------------------------------------------------------------------------------------
 # collaborators that raise, callers that cancel (C02, C13)
 # ----------------------------------------------------------------------------------------------------------------------
@@ -970,11 +1113,13 @@ def _job(job):
         asyncio.run(acyclic({arg}))
     elif kind == 'retry':
         asyncio.run(retry())
+        asyncio.run(retry_overlapped())
     elif kind == 'collab':
         asyncio.run(collab())
     else:
         asyncio.run(recurrent())
         asyncio.run(retry_in_recurrent())
+        asyncio.run(recurrent_overlapped())
     return FAILURES, N_CASES[0]
 
 
